@@ -33,6 +33,8 @@ var tagPool = []string{"v1.0.0", "v1.2.0", "v1.10.0", "v2.0.0", "v2.1.0-rc.1", "
 
 var constraintPool = []string{">=v1.0.0", "v1.2.0", "<v2.0.0", ">=v1.0.0, <v2.0.0", ">=v9.0.0", "~1.2", "not-a-constraint", ">=v0.9.0", "<=v1.10.0"}
 
+var boundPool = []string{">=v1.0.0", "<v2.0.0", ">=v1.0.0, <v2.0.0", ">=v0.9.0", "<=v1.10.0", ">=v1.2.0", "<v1.10.0", ">=v1.10.0", "<=v1.2.0"}
+
 type c17 struct {
 	w      *W
 	repos  []*depRepo
@@ -57,16 +59,27 @@ func RunC17(s *sim.Sim, res *runner.Result) {
 	for i := 0; i < nRepos; i++ {
 		c.repos = append(c.repos, &depRepo{kind: PkgKinds[t.Next(3)], repo: fmt.Sprintf("acme/dep%d", i)})
 	}
+	// with upgrades on, half the runs make the last repository a dependency most
+	// packages share, under bounding constraints: several parents, one package
+	shared := o.Upgrades && t.Next(2) == 0
 	drawDeps := func(self int, allowCycles bool) []Dep {
 		var out []Dep
 		for j, r := range c.repos {
-			if t.Next(3) != 0 {
+			sh := shared && j == len(c.repos)-1
+			if sh {
+				if t.Next(4) == 0 {
+					continue
+				}
+			} else if t.Next(3) != 0 {
 				continue
 			}
 			if j <= self && !allowCycles {
 				continue
 			}
 			con := constraintPool[t.Next(len(constraintPool))]
+			if sh {
+				con = boundPool[t.Next(len(boundPool))]
+			}
 			out = append(out, Dep{Kind: depField(r.kind), Repo: Registry + "/" + r.repo, Constraint: con})
 		}
 		return out
@@ -75,6 +88,9 @@ func RunC17(s *sim.Sim, res *runner.Result) {
 	// publish the dependency repositories: several tags, each with its own dependencies
 	for i, r := range c.repos {
 		n := 1 + t.Next(4)
+		if shared && i == len(c.repos)-1 {
+			n += 2
+		}
 		for k := 0; k < n; k++ {
 			tag := tagPool[t.Next(len(tagPool))]
 			dup := false
@@ -382,6 +398,9 @@ func (c *c17) judgeResolverWrite(e *simapi.LogEntry) {
 		return
 	}
 	w.S.Probe("resolver-write-judged/" + e.Verb)
+	if len(parents) > 1 {
+		w.S.Probe("resolver-write-judged/" + e.Verb + "/several-parents")
+	}
 	if e.Verb == "create" {
 		ok := false
 		var why []string
